@@ -512,17 +512,17 @@ def F59A.ser (v : OptAcctBic) : Text :=
 
 /-- 51A: the party identifier is looked for only when there is a line break; a lone `/…` line of at most 36 bytes is
 rejected outright, anything else goes to `parse_bic` -/
+def F51A.viaNl (input : Text) : Res (Option (Text × Text)) :=
+  match findChar '\n' input with
+  | some p =>
+    (match parsePartyIdentifier (input.take p) with
+     | .ok (some id) => .ok (some ('/' :: id, input.drop (p + 1)))
+     | .ok none => .ok none
+     | .err => .err
+     | .panic => .panic)
+  | none => .ok none
 def F51A.parse (input : Text) : Res OptA :=
-  let viaNl : Res (Option (Text × Text)) :=
-    match findChar '\n' input with
-    | some p =>
-      (match parsePartyIdentifier (input.take p) with
-       | .ok (some id) => .ok (some ('/' :: id, input.drop (p + 1)))
-       | .ok none => .ok none
-       | .err => .err
-       | .panic => .panic)
-    | none => .ok none
-  match viaNl with
+  match F51A.viaNl input with
   | .err => .err
   | .panic => .panic
   | .ok (some (pid, rem)) => (match parseBic rem with | .ok b => .ok ⟨some pid, b⟩ | .err => .err | .panic => .panic)
@@ -763,6 +763,37 @@ structure F61 where
 
 def isUpperOrDigit (c : Char) : Bool := c.isUpper || c.isDigit
 
+/-- transaction type, references and supplementary details (everything after the amount) -/
+def F61.tailPart (d : YMD) (entry : Option Text) (dc : Text) (funds : Option Char) (amt : Dec) (r5 : Text) : Res F61 :=
+  if r5.length < 4 then .err
+  else
+    let tt := r5.take 4
+    if !((match tt with | c :: _ => c.isUpper | [] => false) && tt.all isUpperOrDigit) then .err
+    else
+      let remaining := r5.drop 4
+      let rs : Text × Option Text := match findChar '\n' remaining with
+        | some p => (remaining.take p, some (remaining.drop (p + 1)))
+        | none => (remaining, none)
+      let cb : Text × Option Text := match findSub ['/', '/'] rs.1 with
+        | some p => (rs.1.take p, some (rs.1.drop (p + 2)))
+        | none => (rs.1, none)
+      if blen cb.1 > 16 then .err
+      else if !(cb.1.all isSwiftX) then .err
+      else if (match cb.2 with | some b => b.isEmpty || blen b > 16 || !(b.all isSwiftX) | none => false) then .err
+      else if (match rs.2 with | some x => x.isEmpty || blen x > 34 || !(x.all isSwiftX) | none => false) then .err
+      else .ok ⟨d, entry, dc, funds, amt, tt, cb.1, cb.2, rs.2⟩
+
+/-- funds code and amount (everything after the debit/credit mark) -/
+def F61.amountPart (d : YMD) (entry : Option Text) (dc : Text) (r3 : Text) : Res F61 :=
+  let hasFunds := match r3 with | c :: _ => c.isUpper | [] => false
+  let funds : Option Char := if hasFunds then r3.head? else none
+  let r4 := if hasFunds then r3.drop 1 else r3
+  let amtStr := r4.takeWhile (fun c => c.isDigit || c == ',' || c == '.')
+  if amtStr.isEmpty then .err
+  else match parseAmountMaxLen amtStr 15 with
+    | none => .err
+    | some amt => F61.tailPart d entry dc funds amt (r4.drop amtStr.length)
+
 def F61.parse (input : Text) : Res F61 :=
   if blen input < 12 then .err
   else if !isAsciiT input then .err
@@ -778,34 +809,7 @@ def F61.parse (input : Text) : Res F61 :=
         let dcLen := if decide (2 ≤ r2.length) && (r2.take 2 == ['R', 'D'] || r2.take 2 == ['R', 'C']) then 2 else 1
         let dc := r2.take dcLen
         if !([['D'], ['C'], ['R', 'D'], ['R', 'C']].contains dc) then .err
-        else
-          let r3 := r2.drop dcLen
-          let hasFunds := match r3 with | c :: _ => c.isUpper | [] => false
-          let funds : Option Char := if hasFunds then r3.head? else none
-          let r4 := if hasFunds then r3.drop 1 else r3
-          let amtStr := r4.takeWhile (fun c => c.isDigit || c == ',' || c == '.')
-          if amtStr.isEmpty then .err
-          else match parseAmountMaxLen amtStr 15 with
-            | none => .err
-            | some amt =>
-              let r5 := r4.drop amtStr.length
-              if r5.length < 4 then .err
-              else
-                let tt := r5.take 4
-                if !((match tt with | c :: _ => c.isUpper | [] => false) && tt.all isUpperOrDigit) then .err
-                else
-                  let remaining := r5.drop 4
-                  let (refs, supp) : Text × Option Text := match findChar '\n' remaining with
-                    | some p => (remaining.take p, some (remaining.drop (p + 1)))
-                    | none => (remaining, none)
-                  let (cref, bref) : Text × Option Text := match findSub ['/', '/'] refs with
-                    | some p => (refs.take p, some (refs.drop (p + 2)))
-                    | none => (refs, none)
-                  if blen cref > 16 then .err
-                  else if !(cref.all isSwiftX) then .err
-                  else if (match bref with | some b => b.isEmpty || blen b > 16 || !(b.all isSwiftX) | none => false) then .err
-                  else if (match supp with | some x => x.isEmpty || blen x > 34 || !(x.all isSwiftX) | none => false) then .err
-                  else .ok ⟨d, entry, dc, funds, amt, tt, cref, bref, supp⟩
+        else F61.amountPart d entry dc (r2.drop dcLen)
 def F61.ser (v : F61) : Text :=
   printYYMMDD v.date ++ (v.entry.getD []) ++ v.dc ++ (match v.funds with | some c => [c] | none => []) ++
   formatAmount v.amt.normalize 2 ++ v.ttype ++ v.cref ++ (match v.bref with | some b => '/' :: '/' :: b | none => []) ++
